@@ -1,13 +1,13 @@
 package zv
 
 import (
-	"sort"
 	"fmt"
 	"go/constant"
 	"go/token"
 	"go/types"
 	"os"
 	"regexp"
+	"sort"
 	"strings"
 
 	"golang.org/x/tools/go/ssa"
@@ -473,10 +473,16 @@ func checkC19(c *Ctx) {
 		if f.Pkg == nil || f.Pkg.Pkg.Path() != zp || f.Parent() != nil {
 			return
 		}
+		sets, saves := false, false
 		for _, cl := range Calls(f) {
-			if IsCallTo(cl, "log.SetOutput") && (red == nil || f.String() < red.String()) {
-				red = f
-			}
+			sets = sets || IsCallTo(cl, "log.SetOutput")
+		}
+		for _, cl := range CallsDeep(f) {
+			saves = saves || IsCallTo(cl, "log.Flags")
+		}
+		// (the function that puts the old settings back sets the output too; it reads nothing)
+		if sets && saves && (red == nil || f.String() < red.String()) {
+			red = f
 		}
 	})
 	if c.Anchor("R19.2", "zap: the function that calls log.SetOutput", red != nil) {
